@@ -19,8 +19,8 @@ open CaddyModel.Lifecycle
 
 def w1 : Cfg := ⟨0, [], [⟨3, 1, 0, [0], []⟩]⟩
 def w2 : Cfg := ⟨0, [], [⟨3, 2, 0, [2, 1], []⟩]⟩
-def wEnv1 : Env := ⟨true, false, [], [3], [3]⟩
-def wEnv2 : Env := ⟨true, false, [1], [3], [3]⟩
+def wEnv1 : Env := ⟨true, false, 0, [], [3], [3]⟩
+def wEnv2 : Env := ⟨true, false, 0, [1], [3], [3]⟩
 def wState : State := (step State.init (.load w1 wEnv1)).1
 
 /-- the negation of the full statement, with the concrete witness -/
